@@ -65,7 +65,7 @@ Inner == /\ Live("inner_req") /\ UNCHANGED stats
 Resp == /\ Live("resp") /\ UNCHANGED stats
         /\ IF Rejecting(s.acts)
            THEN LET r == RejectOf(s.acts) IN
-                JudgeK(<< <<"C12.VetoIsTrailersOnlyGrpcResponse", E.status = 200 /\ Values(E.list, "content-type") = <<S_appgrpc>> /\ E.body = <<>> /\ E.trailers = 0>>,
+                JudgeK(<< <<"C12.VetoIsTrailersOnlyGrpcResponse", E.status = 200 /\ Values(E.list, "content-type") = <<S_appgrpc>> /\ E.body = <<>> /\ E.trailers = 0 /\ E.eos>>,   \* eos: the body reports its end before it is polled, so the headers frame carries END_STREAM
                           <<"C12.VetoCarriesExactlyThatStatus", /\ StatusHeaderOK(E.list, r.code) /\ MessageHeaderOK(E.list, r.msg) /\ DetailsHeaderOK(E.list, r.details)
                                                                 /\ MetadataCarried(E.list, r.meta) /\ AllLegal(E.list)>>,
                           <<"C12.VetoedCallNeverReachesService", s.inner = 0>> >>, [s EXCEPT !.resp = TRUE])
